@@ -152,6 +152,7 @@ type progGen struct {
 	// lake: avoid operators whose result legitimately depends on which of
 	// several equal-key records comes first
 	noOrderSensitiveAggs bool
+	mixedKeys            bool // the key column holds strings, floats, nulls: no arithmetic on it
 }
 
 func (g *progGen) pred() string {
@@ -537,4 +538,60 @@ func (g *progGen) positionalIdiom() string {
 	parts = append(parts, Pick(r, []string{"fuse", "fuse", fmt.Sprintf("head %d", 3+r.Intn(6)), fmt.Sprintf("tail %d", 3+r.Intn(6)), "uniq", "fuse | head 6", "head 8 | fuse"}))
 	parts = append(parts, Pick(r, []string{"sort " + k, "sort -r " + k, "sort c,id", "sort -r id", "count() by a", "sum(c) by a", "count() by typeof(this)", "count()", "sum(c)", "sort a,id | head 3"}))
 	return strings.Join(parts, " | ")
+}
+
+// ---------------------------------------------------------------- pool-key filters
+
+// keyFilter: a boolean combination (and / or / not, depth <= 3) of comparisons
+// of the pool key with literals -- what the range pruner analyses -- and of
+// predicates it cannot analyse (other fields, functions, field-to-field
+// comparisons).  None of the leaves evaluates to an error other than missing.
+func (g *progGen) keyLeaf(hi int) string {
+	r := g.r
+	k := g.key
+	lit := fmt.Sprint(r.Intn(hi + 1))
+	if r.Chance(1, 12) {
+		lit = Pick(r, []string{"null", "\"b\"", "1.5", "-1"})
+	}
+	op := Pick(r, []string{"==", "<", "<=", ">", ">=", "!="})
+	if r.Chance(1, 3) {
+		return fmt.Sprintf("%s %s %s", lit, op, k)
+	}
+	return fmt.Sprintf("%s %s %s", k, op, lit)
+}
+
+func (g *progGen) opaqueLeaf() string {
+	r := g.r
+	k := g.key
+	if g.mixedKeys {
+		// arithmetic and ordering against other fields are errors on string keys
+		return Pick(r, []string{
+			fmt.Sprintf("c > %d", r.Intn(20)), fmt.Sprintf("c == %d", r.Intn(20)), fmt.Sprintf("a == %d", r.Intn(5)),
+			fmt.Sprintf("c != %d", r.Intn(20)), "has(s)", fmt.Sprintf("id %% 3 == %d", r.Intn(3)), "b == \"x\"",
+			fmt.Sprintf("n.x == %d", r.Intn(4)), "a == null", "missing(a)", "has(" + k + ")", k + " == c",
+		})
+	}
+	return Pick(r, []string{
+		fmt.Sprintf("c > %d", r.Intn(20)), fmt.Sprintf("c == %d", r.Intn(20)), fmt.Sprintf("a == %d", r.Intn(5)),
+		fmt.Sprintf("c != %d", r.Intn(20)), "has(s)", fmt.Sprintf("id %% 3 == %d", r.Intn(3)), k + " < c", "c <= " + k,
+		fmt.Sprintf("%s + 0 > %d", k, r.Intn(40)), "b == \"x\"", fmt.Sprintf("n.x == %d", r.Intn(4)), "a == null",
+		fmt.Sprintf("%s %% 2 == 0", k), "missing(a)",
+	})
+}
+
+func (g *progGen) keyFilter(depth, hi int) string {
+	r := g.r
+	if depth == 0 || r.Chance(1, 4) {
+		if r.Chance(3, 5) {
+			return g.keyLeaf(hi)
+		}
+		return g.opaqueLeaf()
+	}
+	switch r.Intn(7) {
+	case 0:
+		return "not (" + g.keyFilter(depth-1, hi) + ")"
+	case 1, 2, 3:
+		return "(" + g.keyFilter(depth-1, hi) + ") or (" + g.keyFilter(depth-1, hi) + ")"
+	}
+	return "(" + g.keyFilter(depth-1, hi) + ") and (" + g.keyFilter(depth-1, hi) + ")"
 }
